@@ -53,6 +53,8 @@ def impl_methods(F):
 import roles
 
 _wcache = {}
+from tc.util import register_cache as _reg
+_reg(_wcache)
 
 
 def is_write_event(F, be, e):
